@@ -510,4 +510,30 @@ def r5_copies_keep_the_declared_scale(ctx):
     r3_deepcopy_completeness(ctx)
 
 
-RULES = [r5_copies_keep_the_declared_scale, r1_slice_walk, r2_log_pairing, r3_per_component_boundaries, r4_single_conversion]
+def r6_copies_are_private(ctx):
+    """A candidate's values are written into a processor that no other candidate can see: update_processor / create_new_processor work on a private deep copy of the whole processor, made BEFORE the values are set (shared with C06.R1)."""
+    from props.C06 import r1_fresh_copy_per_run
+
+    r1_fresh_copy_per_run(ctx)
+
+
+def r7_vector_parameters_are_lists(ctx):
+    """The walkers over the decision vector (_set_bound, convert_to_parameters, update_processor) recognise a vector parameter by `isinstance(var.values, list)` / Sequence tests that only agree for lists: ParameterValues therefore stores every non-scalar declaration as a fresh list - convert_values returns its input unchanged only for the scalar kinds (Simple type, the placeholder '_'), decided per path."""
+    from sa.paths import enumerate_paths
+
+    f = ctx.func("pyxel.observation.parameter_values:convert_values")
+    v = f.params[0]
+    n = 0
+    for q_ in enumerate_paths(f.node.body):
+        if q_.exit != "return" or q_.value is None:
+            continue
+        n += 1
+        scalar = any(pol and ("ParameterType.Simple" in t or t in (f"{v} == '_'", f"'_' == {v}")) for t, pol in q_.cond_texts())
+        val = q_.value
+        fresh_list = isinstance(val, (ast.ListComp, ast.List)) or (isinstance(val, ast.Call) and call_name(val) == "list")
+        ok = fresh_list or (scalar and dotted(val) == v)
+        ctx.check(ok, f.qual + "#list", "scalar kinds pass through, every other declaration becomes a list" if ok else f"when {q_.cond_texts()[:3]} convert_values returns `{norm(val)[:50]}`: a vector declared as a tuple stays a tuple, which _set_bound counts as N components but convert_to_parameters / update_processor treat as one (offsets shift, the vector is never applied)", where=f, node=q_.exit_node or f.node)
+    ctx.floor(n, 2)
+
+
+RULES = [r6_copies_are_private, r7_vector_parameters_are_lists, r5_copies_keep_the_declared_scale, r1_slice_walk, r2_log_pairing, r3_per_component_boundaries, r4_single_conversion]
